@@ -264,6 +264,32 @@ def validateargs(args, log):
     if has_errors:
         sys.exit(1)
 
+def record_anchors(data: Any, seen_anchors: List[str]) -> None:
+    """
+    Put every Anchor beneath a node which will not be searched on record.
+
+    The search does not descend into the value of a matched parent or of an
+    excluded aliased key.  An Anchor which is first defined there must still
+    be seen, lest a later Alias of it be mistaken for the original node.
+    """
+    def record_anchor(node: Any) -> None:
+        anchor = Anchors.get_node_anchor(node)
+        if anchor is not None and anchor not in seen_anchors:
+            seen_anchors.append(anchor)
+
+    if isinstance(data, CommentedMap):
+        for key, val in data.items():
+            record_anchor(key)
+            record_anchor(val)
+            record_anchors(val, seen_anchors)
+    elif isinstance(data, CommentedSeq):
+        for ele in data:
+            record_anchor(ele)
+            record_anchors(ele, seen_anchors)
+    elif isinstance(data, CommentedSet):
+        for key in data:
+            record_anchor(key)
+
 # pylint: disable=locally-disabled,too-many-arguments,too-many-locals,too-many-branches
 def yield_children(logger: ConsolePrinter, data: Any,
                    terms: SearchTerms, pathsep: PathSeparators,
@@ -353,6 +379,7 @@ def yield_children(logger: ConsolePrinter, data: Any,
                     or (not include_value_aliases
                         and val_anchor_matched in exclude_alias_matchers)
             ):
+                record_anchors(val, seen_anchors)
                 continue
 
             if isinstance(val, (CommentedSeq, CommentedMap, CommentedSet)):
@@ -466,6 +493,7 @@ def search_for_paths(logger: ConsolePrinter, processor: EYAMLProcessor,
                             include_value_aliases=include_value_aliases):
                         yield path
                 else:
+                    record_anchors(ele, seen_anchors)
                     yield YAMLPath(tmp_path)
                 continue
 
@@ -549,6 +577,7 @@ def search_for_paths(logger: ConsolePrinter, processor: EYAMLProcessor,
             # unless the caller asks for them.
             if (not include_key_aliases
                     and key_anchor_matched in exclude_alias_matchers):
+                record_anchors(val, seen_anchors)
                 continue
 
             # Search the key when the caller wishes it.
@@ -568,6 +597,7 @@ def search_for_paths(logger: ConsolePrinter, processor: EYAMLProcessor,
                                 include_value_aliases=include_value_aliases):
                             yield path
                     else:
+                        record_anchors(val, seen_anchors)
                         yield YAMLPath(tmp_path)
                     continue
 
@@ -591,6 +621,7 @@ def search_for_paths(logger: ConsolePrinter, processor: EYAMLProcessor,
                     else:
                         # No other matches within this node matter because they
                         # are already in the result.
+                        record_anchors(val, seen_anchors)
                         yield YAMLPath(tmp_path)
                     continue
 
@@ -613,6 +644,7 @@ def search_for_paths(logger: ConsolePrinter, processor: EYAMLProcessor,
                             include_value_aliases=include_value_aliases):
                         yield path
                 else:
+                    record_anchors(val, seen_anchors)
                     yield YAMLPath(tmp_path)
                 continue
 
